@@ -2,6 +2,7 @@ import Driver.Parse
 import Driver.FD
 import Driver.Unify
 import Driver.Prog
+import Driver.LTerm
 /-!
   pvdriver: reads one case per line on stdin, runs the executable model, prints one canonical
   result line per case.  Unknown or malformed lines print `bad-case`.
@@ -14,6 +15,7 @@ def runLine (line : String) : String :=
   | "fd" :: rest => runFD rest
   | "unify" :: rest => runUnify rest
   | "prog" :: rest => runProg rest
+  | "lt" :: rest => runLT rest
   | _ => "bad-case"
 
 partial def loop (h : IO.FS.Stream) (out : IO.FS.Stream) : IO Unit := do
